@@ -8,7 +8,7 @@ Compared: EVERY field the Specs state for a result — count and order, TypeName
 every key of Resolution (`value`, `type`, `score`; str / bool / float as text, `translate.speccases.canon`) — which is
 what property C19 states ("text, type, offsets where given, and resolution fields").  The repository's own runner
 compares less (never Start / End, never Resolution.type, never the boolean score; see translate/speccases.py), so two
-families passed it and failed here, each in one field of every entity, until two one-line fixes of /repo:
+families passed it and failed here, each in one field of every entity, until two one-line fixes of /repo (a7314f077, aeefbdd20):
   spec-field:IpAddress:Resolution.type:absent   recognize_ip_address reported {'value', 'score': 'None'} — no `type`
   spec-field:Boolean:Resolution.score:0.0       recognize_boolean reported score 0.0, the Specs state the extractor's score
 (findings/specs-fields/*.diff; RTV.C19.prefix_spec_ip_type_absent / prefix_spec_boolean_score_differs are the
